@@ -60,6 +60,8 @@ pub struct Hints {
     pub ips: Vec<IpAddr>,
     pub keys: Vec<String>,
     pub list_names: Vec<(MType, String)>,
+    /// array indexes written in the expression (long arrays are sized around them)
+    pub idxs: Vec<u32>,
 }
 
 pub struct Gen<'c, 'd> {
@@ -230,6 +232,20 @@ pub fn gen_val(ch: &mut Choices<'_>, t: &MType, h: &Hints) -> MVal {
         MType::Int => MVal::Int(gen_int(ch, &h.ints)),
         MType::Bytes => MVal::Bytes(gen_bytes(ch, &h.bytes)),
         MType::Ip => MVal::Ip(gen_ip(ch, &h.ips)),
+        MType::Array(e) if !h.idxs.is_empty() && ch.chance(1, 3) || ch.chance(1, 40) => {
+            // a long array: sized around an index the expression uses (or a round
+            // length), two generated elements repeated in a drawn pattern
+            let n = if h.idxs.is_empty() {
+                *ch.pick(&[17usize, 64, 65, 257])
+            } else {
+                (*ch.pick(&h.idxs) as usize + ch.draw(3)).saturating_sub(1).max(1)
+            };
+            // nested containers stay small in total
+            let n = if e.depth() > 0 { n.min(20) } else { n };
+            let (a, b) = (gen_val(ch, e, h), gen_val(ch, e, h));
+            let mask = ch.u64();
+            MVal::Array((**e).clone(), (0..n).map(|i| if mask >> (i % 64) & 1 == 1 { a.clone() } else { b.clone() }).collect())
+        }
         MType::Array(e) => {
             let n = ch.weighted(&[2, 2, 3, 3, 3, 2, 1]);
             MVal::Array((**e).clone(), (0..n).map(|_| gen_val(ch, e, h)).collect())
@@ -241,6 +257,15 @@ pub fn gen_val(ch: &mut Choices<'_>, t: &MType, h: &Hints) -> MVal {
             for k in &h.keys {
                 if seen.insert(k.clone()) && seen.len() <= 4 && ch.chance(2, 3) {
                     m.insert(k.as_bytes().to_vec(), gen_val(ch, e, h));
+                }
+            }
+            if ch.chance(1, 40) {
+                // a large map: 30..90 further entries, two generated values in a drawn pattern
+                let extra = 30 + ch.draw(61);
+                let (a, b) = (gen_val(ch, e, h), gen_val(ch, e, h));
+                let mask = ch.u64();
+                for i in 0..extra {
+                    m.insert(format!("key{i:02}").into_bytes(), if mask >> (i % 64) & 1 == 1 { a.clone() } else { b.clone() });
                 }
             }
             let n = ch.weighted(&[3, 3, 2, 1, 1]);
@@ -607,8 +632,11 @@ impl<'c, 'd> Gen<'c, 'd> {
         let n = match self.ch.weighted(&[8, 1, 1]) {
             0 => self.ch.draw(4) as u32,
             1 => *self.ch.pick(&[4u32, 5, 6]),
-            _ => *self.ch.pick(&[u32::MAX, 0x8000_0000, 0x7fff_ffff, 1000]),
+            _ => *self.ch.pick(&[u32::MAX, 0x8000_0000, 0x7fff_ffff, 1000, 15, 16, 63, 64, 65, 255, 256]),
         };
+        if (7..=300).contains(&n) {
+            self.hints.idxs.push(n);
+        }
         MIdx::Idx(n, *self.ch.pick(&[IntForm::Dec, IntForm::Dec, IntForm::Hex, IntForm::Oct]))
     }
 
